@@ -21,23 +21,35 @@ META = dict(
 
 
 class Pair:
-    def __init__(self, connected):
+    def __init__(self, connected, graph=None, covered=None):
         self.sys = H.Sys(connected)
-        self.model = H.Model(connected, self.sys.clock.now)
+        self.graph = graph
+        if graph is not None:
+            from mc.tlc_replay import TlcModel
+            self.model = TlcModel(graph, connected, covered)
+        else:
+            self.model = H.Model(connected, self.sys.clock.now)
         self.problems: list[tuple[str, str]] = []
 
     def apply(self, ev):
         s = self.sys
         rec = s.apply(ev)
         kind = H.event_kind(ev, rec["pre"])
-        self.model.step(kind, s.clock.now)
+        if self.graph is not None:
+            from mc.tlc_replay import tla_label
+            self.model.step_label(tla_label(ev, rec["pre"]))
+        else:
+            self.model.step(kind, s.clock.now)
         allowed = self.model.names()
         probs = []
         if not self.model.restrict(rec["post"]):
             probs.append((f"C23:transition:{rec['pre']}-{kind}->{rec['post']}",
                           f"event {ev} ({kind}) in {rec['pre']} led to {rec['post']}; documented protocol allows {allowed}"))
             # resynchronise so later steps are still checked
-            self.model.states = {(rec["post"], s.clock.now, s.clock.now, s.clock.now)}
+            if self.graph is not None:
+                self.model.resync(rec["post"])
+            else:
+                self.model.states = {(rec["post"], s.clock.now, s.clock.now, s.clock.now)}
         want_disc = rec["post"] in ("Disconnected", "Error")
         if (rec["status"] == "Disconnected") != want_disc:
             probs.append((f"C23:status-tag:{rec['post']}:{rec['status']}:after-{kind}-from-{rec['pre']}",
@@ -64,8 +76,8 @@ class Pair:
         return rec
 
 
-def build(hist, connected):
-    p = Pair(connected)
+def build(hist, connected, graph=None, covered=None):
+    p = Pair(connected, graph, covered)
     for ev in hist:
         p.apply(ev)
     return p
@@ -77,6 +89,8 @@ def canon(p: Pair):
 
     def rel(t):
         return None if t is None else min(now - t, cap)
+    if p.graph is not None:
+        return (H.canon(p.sys), p.model.key())
     mk = frozenset((st, rel(a), rel(b), rel(c)) for st, a, b, c in p.model.states)
     return (H.canon(p.sys), mk)
 
@@ -89,13 +103,23 @@ def run(ctx):
     states = trans = 0
     edges = set()
     samples = []
+    graph, covered, tlc_info = None, set(), None
+    if not ctx.quick:
+        # thorough tier: the reference model is the state graph TLC computes from models/HwRecovery.tla (TLC also checks the
+        # model's own invariants); it must agree edge for edge with the Python model of the quick tier
+        from mc import tlc_replay
+        graph = tlc_replay.load_graph()
+        n_cross = tlc_replay.cross_check(graph)
+        tlc_info = {"tlc": graph.summary, "graph_nodes": len(graph.nodes), "graph_edges": graph.n_edges,
+                    "state_action_pairs_cross_checked_with_python_model": n_cross}
+        ctx.note(f"[C23] TLC: {graph.summary}; {graph.n_edges} labelled edges; cross-checked {n_cross} (state, action) pairs with the Python model")
     for connected in (True, False):
         def on_tr(hist, ev, nxt, connected=connected):
             rec = nxt.sys.obs[-1]
             for sig, what in rec["problems"]:
                 ctx.violation(sig, what, {"connected": connected, "history": list(hist) + [ev]})
             edges.add((rec["pre"], H.event_kind(ev, rec["pre"]), rec["post"]))
-        res = explore.bfs(lambda h: build(h, connected), lambda p, h: H.enabled(p.sys, h, alphabet), canon, on_tr, depth)
+        res = explore.bfs(lambda h: build(h, connected, graph, covered), lambda p, h: H.enabled(p.sys, h, alphabet), canon, on_tr, depth)
         states += res.states
         trans += res.transitions
         samples += [list(h) for h in res.histories[-2:]]
@@ -109,6 +133,9 @@ def run(ctx):
              "implementation (subset-construction conformance); distinct_nontrivial = distinct (state, event kind, state) "
              "edges of the five-state protocol exercised",
         samples=samples, depth=depth, alphabet=list(alphabet), exhaustive=True)
+    if graph is not None:
+        tlc_info["graph_edges_followed_by_the_implementation"] = len(covered)
+        ctx.coverage.update(tlc_model=tlc_info)
     ctx.assumptions += ["model transcribed from docs/src/Error Recovery.rst; it leaves open when an expired timeout is noticed "
                         "(at the elapse or at the next failing/any I/O request) and is deterministic elsewhere",
                         f"timeouts {H.T_RECONNECT}s/{H.T_ERROR}s instead of the defaults"]
@@ -118,7 +145,7 @@ def run(ctx):
 
 
 def replay(data):
-    p = build(tuple(data["history"]), data.get("connected", True))
+    p = build(tuple(data["history"]), data.get("connected", True))        # replay uses the Python model (same relation)
     for rec in p.sys.obs:
         print({k: rec.get(k) for k in ("ev", "pre", "post", "status", "raised", "ret", "problems")})
     return p.problems
